@@ -50,7 +50,9 @@ def plans(draw, max_calls=12):
       stall = {'conn': draw(st.integers(0, 1)), 'send_index': draw(st.integers(0, 3 if stack == 'thrift' else 6)),
                'cut': draw(st.sampled_from([1, 4, 10, 18, 30])), 'for_ms': draw(st.sampled_from([5, 15, 25, 45, 60, T + 10, 2 * T]))}
     servers[str(p)] = {'connect': [], 'requests': reqs, 'timeline': tl, 'stall': stall,
-                       'chunks': draw(st.one_of(st.none(), st.lists(st.integers(1, 9), min_size=1, max_size=4)))}
+                       'chunks': draw(st.one_of(st.none(), st.lists(st.integers(1, 9), min_size=1, max_size=4))),
+                       # replies arriving as segments 1 ms apart: readers block part-way through a prefix or a body
+                       'segments': draw(st.sampled_from([None, None, None, [3], [1, 2], [3, 1, 20], [2, 30], [6]]))}
   wait_open = draw(st.sampled_from([True, True, False]))
   if not wait_open:
     slow = draw(st.sampled_from([3, 8, 15]))
